@@ -34,7 +34,7 @@ def cases(draw, tier):
                 constraint=draw(st.sampled_from(["default", None])), bias=draw(st.booleans()), seed=draw(st.integers(0, 10**6)),
                 batch=draw(st.sampled_from([None, 1])), container=draw(st.sampled_from(["padded", "padded", "shared-instance", "module-list"])),
                 lr_spell=draw(st.sampled_from(["keyword", "keyword", "positional", "tensor", "tensor-positional"])),
-                params_spell=draw(st.sampled_from(["weight-list", "weight-list", "model.parameters()"])),
+                params_spell=draw(st.sampled_from(["weight-list", "weight-list", "model.parameters()", "mixed-group"])),
                 model_history=draw(st.sampled_from([None, None, None, "clone-layers", "copy-model", "pickle-model"])))
 
 
@@ -90,12 +90,17 @@ def run(c) -> CaseResult:
         all_params = c.get("params_spell") == "model.parameters()"
         if all_params:
             params = model.parameters()   # every parameter as its own implicit group (a generator); only the weight will get a gradient
+        okw = {}
+        if c.get("params_spell") == "mixed-group":
+            # one explicit group holding the unit-scaled weight next to a plain nn.Parameter (allowed by flag); the plain one gets no gradient
+            params = [dict(params=[torch.nn.Parameter(torch.zeros(3, dtype=torch.float64)), layer.weight])]
+            okw = dict(allow_non_unit_scaling_params=True)
         lr_spell = c.get("lr_spell", "keyword")
         eta_arg = torch.tensor(c["eta"], dtype=torch.float64) if lr_spell.startswith("tensor") else c["eta"]
         if lr_spell.endswith("positional"):
-            opt = Opt(params, eta_arg, eps=0.0, weight_decay=0.0, betas=(0.9, 0.999))
+            opt = Opt(params, eta_arg, eps=0.0, weight_decay=0.0, betas=(0.9, 0.999), **okw)
         else:
-            opt = Opt(params, lr=eta_arg, eps=0.0, weight_decay=0.0, betas=(0.9, 0.999))
+            opt = Opt(params, lr=eta_arg, eps=0.0, weight_decay=0.0, betas=(0.9, 0.999), **okw)
         res.labels += [f"lr={lr_spell}", f"params={c.get('params_spell', 'weight-list')}"]
         y0 = layer(x)
         gmag = torch.exp(torch.empty(y0.shape, dtype=torch.float64).uniform_(math.log(1e-3), math.log(1e3), generator=g))
